@@ -391,7 +391,7 @@ def jobs(tier, seed):
     # the FFT branch executed on the correlation-theorem model: long and short replicas relative to w_max, odd / even lengths, expanded data
     for idx, wm, gap in (([1, 2, 3, 4, 5, 6, 7, 8], 4, 1), ([1, 2, 3, 4, 5, 6, 7], 3, 1), ([1, 2, 3, 4, 5], 8, 1), ([1, 2, 3, 4, 5, 6], 6, 1), ([1, 2, 3], 7, 1),
                          ([2, 4, 8, 10, 14], 4, 2), ([1, 4, 7, 13], 6, 3), ([5], 3, 1)):
-        add('fft_exec', idx=idx, w_max=wm, gap=gap)
+        J.append(dict(harness='fft_exec', params=dict(idx=idx, w_max=wm, gap=gap), opts=dict(abs_scale=1.0)))      # replay: FFT rounding noise against exact zeros must not count
     add('gamma_level', layout={'e|r1': [1, 2, 3, 4, 5, 6, 7, 8, 9, 10, 11, 12], 'e|r2': [1, 2, 3, 4, 5]}, fft=True)     # a replica shorter than w_max through the FFT branch
     add('gamma_level', layout={'e|r1': [2, 4, 6, 10, 12, 14, 16], 'f|r1': [1, 2, 3, 4, 5, 6]}, fft=True)
     for n, gap in ((5, 1), (6, 2), (8, 3)):
